@@ -196,6 +196,10 @@ type exp struct {
 	tgt   *actor.PID
 	snd   *actor.PID
 	msg   any
+	// opt: the occurrence may or may not have happened (a stop request that overlaps the very end of
+	// the target's clean-up is either signalled by the clean-up or dead-lettered); when the next
+	// record is something else, the expectation is dropped and the record is looked at again
+	opt bool
 }
 
 func pidStr(p *actor.PID) string {
@@ -634,12 +638,27 @@ func run(c Case, c09 bool) (feat map[string]int, err error) {
 				h.note("life-deadletter")
 			}
 			if op.Restop {
+				if die {
+					// An actor that died of max-restarts publishes ActorStoppedEvent a moment before its
+					// clean-up returns; a stop request made in between is signalled by the clean-up instead
+					// of being dead-lettered.  This request settles that: once its context is done the actor
+					// is gone for good, and the request below finds nobody.
+					select {
+					case <-e.Poison(tp).Done():
+					case <-time.After(5 * time.Second):
+						return nil, fmt.Errorf("op %d: the context of a Poison for an actor that died of max-restarts never became done", oi)
+					}
+				}
 				select {
 				case <-e.Stop(tp).Done():
 				case <-time.After(5 * time.Second):
 					return nil, fmt.Errorf("op %d: the context of a Stop for an actor that is gone never became done", oi)
 				}
 				h.add(exp{kind: "dl", tgt: tp, msg: pillMarker{}})
+				if die {
+					// (the required one first: of one or two equal records the first satisfies it)
+					h.add(exp{kind: "dl", tgt: tp, msg: pillMarker{}, opt: true})
+				}
 				h.note("life-stop-request-dead-letters")
 			}
 			h.note("lifecycle")
@@ -903,6 +922,9 @@ func (h *harness) compare(i int, log []rec, want []exp) error {
 		default:
 			r := next()
 			we := rec{kind: w.kind, text: w.text, tgt: w.tgt, snd: w.snd, msg: w.msg}
+			if r == nil && w.opt {
+				continue
+			}
 			if r == nil {
 				return fmt.Errorf("%s never received %v (expectation %d of %d)", name, we, wi, len(want))
 			}
@@ -914,6 +936,10 @@ func (h *harness) compare(i int, log []rec, want []exp) error {
 				} else {
 					ok = ok && reflect.DeepEqual(r.msg, w.msg)
 				}
+			}
+			if !ok && w.opt {
+				li-- // not this record: the optional occurrence did not happen
+				continue
 			}
 			if !ok {
 				return fmt.Errorf("%s: expected %v, got %v", name, we, *r)
